@@ -233,6 +233,50 @@ func dmgItems(path string) ([]Item, error) {
 	return []Item{{"data+plist", sum(data[:xmlOff+xmlLen])}}, nil
 }
 
+// clearItems: the text carried by an OpenPGP cleartext-signed message (RFC 4880 section 7), or a plain text file,
+// compared modulo what the cleartext framework does not preserve: line-ending style and trailing blanks of each line.
+func clearItems(path string) ([]Item, error) {
+	data, err := os.ReadFile(path)
+	if err != nil {
+		return nil, err
+	}
+	text := string(data)
+	const begin, sig = "-----BEGIN PGP SIGNED MESSAGE-----", "-----BEGIN PGP SIGNATURE-----"
+	signed := strings.HasPrefix(text, begin)
+	var lines []string
+	if signed {
+		rest := text[len(begin):]
+		// armor headers end at the first empty line
+		i := strings.Index(rest, "\n\n")
+		if j := strings.Index(rest, "\r\n\r\n"); j >= 0 && (i < 0 || j < i) {
+			rest = rest[j+4:]
+		} else if i >= 0 {
+			rest = rest[i+2:]
+		} else {
+			return nil, errors.New("cleartext message without header separator")
+		}
+		end := strings.LastIndex(rest, "\n"+sig)
+		if end < 0 {
+			return nil, errors.New("cleartext message without signature armor")
+		}
+		for _, l := range strings.Split(rest[:end], "\n") {
+			l = strings.TrimRight(l, "\r")
+			if strings.HasPrefix(l, "- ") {
+				l = l[2:] // dash-escaped
+			}
+			lines = append(lines, l)
+		}
+	} else {
+		lines = strings.Split(strings.TrimSuffix(text, "\n"), "\n")
+	}
+	var sb strings.Builder
+	for _, l := range lines {
+		sb.WriteString(strings.TrimRight(l, " \t\r"))
+		sb.WriteString("\n")
+	}
+	return []Item{{"cleartext", sum([]byte(sb.String()))}, {"lines", fmt.Sprint(len(lines))}}, nil
+}
+
 // PayloadItems projects a file of the given type. ok=false when no independent reader exists.
 func PayloadItems(typ, path string) (items []Item, ok bool, err error) {
 	switch typ {
@@ -248,6 +292,8 @@ func PayloadItems(typ, path string) (items []Item, ok bool, err error) {
 		items, err = rpmItems(path)
 	case "dmg":
 		items, err = dmgItems(path)
+	case "pgp-clearsign":
+		items, err = clearItems(path)
 	default:
 		return nil, false, nil
 	}
